@@ -616,6 +616,14 @@ def rule_M6(ctx, rid='M6'):
             fw[0][0] == 1.0 and bw[0][0] == 1.0 and \
             abs(fw[0][1] + bw[0][1]) < 1e-12 and abs(fw[0][2] + bw[0][2]) < 1e-12 and \
             (fw[0][1] != 0)
+        half = bool(fw) and fw[0] is not None and fw[0][1] == -1.0 and \
+            abs((fw[0][2] - 0.5) % 1.0) < 1e-12
+        ctx.ob(rid, 'PhaseShift.transform:forward-centres-at-half', half, f.where(lp),
+               'the forward shift is x - centre + 1/2 (mod 1): the centre of the points lands on '
+               '1/2, the largest gap on the wrap position' if half else
+               'the forward shift adds %s (column, centre, constant coefficients), not '
+               'x - centre + 1/2: the points are not centred, so the largest gap is not what '
+               'straddles the boundary' % (fw,))
         ctx.ob(rid, 'PhaseShift.transform:inverse-is-opposite-shift', ok, f.where(lp),
                'before reduction forward adds %s and inverse adds %s (col, center, const '
                'coefficients)' % (fw, bw))
